@@ -119,7 +119,10 @@ class ConcreteNet:
         return all(self.fval(v, x) == bool(b) for x in self.states if in_space(x, S))
 
     def trap(self, S):
-        return all(self.const_on(v, S[v], S) for v in range(self.n) if S[v] is not None)
+        c = self._dyn_cache.setdefault("trap", {})
+        if S not in c:
+            c[S] = all(self.const_on(v, S[v], S) for v in range(self.n) if S[v] is not None)
+        return c[S]
 
     def trap_rel(self, M, base, V=None):
         return all(self.const_on(v, M[v], M) for v in range(self.n)
